@@ -14,6 +14,7 @@ type Image struct {
 	Seed uint64
 	Ov   map[uint32]byte // explicit initial contents
 	Wr   map[uint32]byte // bytes written during the run
+	SWr  map[uint32]bool // addresses written since the last ResetStep
 	Rd   map[uint32]bool // addresses read (24-bit masked)
 	OOB  []uint32        // addresses >= 2^24 that reached the backend
 	Log  []Access        // ordered access log (only when KeepLog)
@@ -26,7 +27,7 @@ type Image struct {
 }
 
 func New(seed uint64) *Image {
-	return &Image{Seed: seed, Ov: map[uint32]byte{}, Wr: map[uint32]byte{}, Rd: map[uint32]bool{}}
+	return &Image{Seed: seed, Ov: map[uint32]byte{}, Wr: map[uint32]byte{}, Rd: map[uint32]bool{}, SWr: map[uint32]bool{}}
 }
 
 // Base is the lazily-random content of an address never written nor overlaid.
@@ -88,6 +89,9 @@ func (m *Image) WrAddr(a uint32, v byte) {
 	}
 	m.NWrite++
 	m.Wr[a] = v
+	if !m.NoRdSet {
+		m.SWr[a] = true
+	}
 	if m.KeepLog {
 		m.Log = append(m.Log, Access{a, v, true})
 	}
@@ -119,6 +123,9 @@ func (m *Image) CloneAll() *Image {
 func (m *Image) ResetStep() {
 	if len(m.Rd) > 0 {
 		m.Rd = map[uint32]bool{}
+	}
+	if len(m.SWr) > 0 {
+		m.SWr = map[uint32]bool{}
 	}
 	m.Log = m.Log[:0]
 	m.OOB = m.OOB[:0]
